@@ -343,6 +343,26 @@ def append_log(bdir, out, start, h):
         f.write((json.dumps({"o": out, "mtime": start, "hash": h}) + "\n").encode())
 
 
+def run_tool(world, bdir, tool, argv):
+    """`ninja -t <tool>`: only what has been seen in the wild is modelled; anything else is a harness error."""
+    if tool == "restat":
+        # BuildLog::Restat: every logged output's recorded mtime becomes its current on-disk mtime (0 if missing)
+        log = load_log(bdir)
+        if not log:
+            return 0
+        lines = []
+        for o, ent in log.items():
+            try:
+                m = os.stat(os.path.join(bdir, o)).st_mtime_ns
+            except OSError:
+                m = 0
+            lines.append(json.dumps({"o": o, "mtime": m, "hash": ent["hash"]}))
+        with open(os.path.join(bdir, LOG_NAME), "wb") as f:
+            f.write(("\n".join(lines) + "\n").encode())
+        return 0
+    raise Unsupported("ninja -t " + tool)
+
+
 def H(*parts):
     return int.from_bytes(hashlib.sha256("|".join(str(p) for p in parts).encode()).digest()[:8], "big")
 
@@ -534,7 +554,13 @@ class SimNinja:
             if dirty[e.idx] is None:
                 lw = w.last_write.get((real_bdir, e.outs[0]))
                 if lw is not None and not lw["ok"]:
-                    res.anomalies.append({"k": "stale.failed_output_trusted", "edge": e.outs[0], "rule": e.rule, "written_in_inv": lw["inv"]})
+                    # would ninja's own rules, applied to the log entry of the last SUCCESSFUL run, call this edge clean?
+                    # (yes = the inputs and the command are back to what that run saw; no = something else vouched for it)
+                    sh0 = self.shadow.get((real_bdir, e.outs[0]))
+                    most = max([self.scan_mtime.get(i) or 0 for i in e.ins + e.implicit] or [0])
+                    explained = bool(sh0 is not None and sh0.get("start") is not None and sh0["cmd"] == cmd_hash(mf.command_for_hash(e)) and sh0["start"] >= most)
+                    res.anomalies.append({"k": "stale.failed_output_trusted", "edge": e.outs[0], "rule": e.rule, "written_in_inv": lw["inv"],
+                                          "explained_by_log_of_last_success": explained})
                 sh = self.shadow.get((real_bdir, e.outs[0]))
                 if sh is None:
                     continue
@@ -812,6 +838,7 @@ class SimNinja:
                         pass
                 self.shadow[(real_bdir, e.outs[0])] = {
                     "cmd": h,
+                    "start": start_ns,
                     "reads": {w.abs(p): w.digest(w.abs(p)) for p in rec["reads"]},
                 }
                 done_ok.add(e.idx)
